@@ -516,6 +516,13 @@ class PVLEncoder(object):
         """Returns a ``str`` formatted as a PVL Units Value based
         on the *value* object according to the rules of this encoder.
         """
+        for d in self.grammar.units_delimiters:
+            if d in value:
+                raise ValueError(
+                    f'The units delimiter "{d}" cannot be part of a Units '
+                    f'Expression, and this one has it: "{value}"'
+                )
+
         return (
             self.grammar.units_delimiters[0]
             + value
